@@ -6,13 +6,90 @@ from ..paths import ipaths, paths, annotate, call_attr
 
 
 def _self_loads(node):
+    """loads of self.X, also written getattr(self, 'X'[, d]), hasattr(self,
+    'X'), self.__dict__['X'] / .get('X'), vars(self)['X']"""
     out = []
     if node is None or not isinstance(node, ast.AST):
         return out
+
+    def pseudo(name, at):
+        n = ast.Attribute(value=ast.Name('self', ast.Load()), attr=name,
+                          ctx=ast.Load())
+        return ast.copy_location(n, at)
+
+    def is_self(x):
+        return isinstance(x, ast.Name) and x.id == 'self'
+
+    def is_dict(x):
+        return (isinstance(x, ast.Attribute) and x.attr == '__dict__' and
+                is_self(x.value)) or (
+            isinstance(x, ast.Call) and unparse(x.func) == 'vars' and
+            len(x.args) == 1 and is_self(x.args[0]))
     for x in ast.walk(node):
         if isinstance(x, ast.Attribute) and isinstance(x.ctx, ast.Load) and \
-                isinstance(x.value, ast.Name) and x.value.id == 'self':
+                is_self(x.value) and x.attr != '__dict__':
             out.append(x)
+        elif isinstance(x, ast.Call) and isinstance(x.func, ast.Name) and \
+                x.func.id in ('getattr', 'hasattr') and len(x.args) >= 2 and \
+                is_self(x.args[0]) and isinstance(x.args[1], ast.Constant) \
+                and isinstance(x.args[1].value, str):
+            out.append(pseudo(x.args[1].value, x))
+        elif isinstance(x, ast.Subscript) and isinstance(x.ctx, ast.Load) and \
+                is_dict(x.value) and isinstance(x.slice, ast.Constant) and \
+                isinstance(x.slice.value, str):
+            out.append(pseudo(x.slice.value, x))
+        elif isinstance(x, ast.Call) and isinstance(x.func, ast.Attribute) \
+                and x.func.attr in ('get', 'pop') and is_dict(x.func.value) \
+                and x.args and isinstance(x.args[0], ast.Constant) and \
+                isinstance(x.args[0].value, str):
+            out.append(pseudo(x.args[0].value, x))
+        elif isinstance(x, ast.Compare) and len(x.ops) == 1 and isinstance(
+                x.ops[0], (ast.In, ast.NotIn)) and is_dict(x.comparators[0]) \
+                and isinstance(x.left, ast.Constant) and \
+                isinstance(x.left.value, str):
+            out.append(pseudo(x.left.value, x))
+    return out
+
+
+_REF_ATTRS = None
+
+
+def _ref_class_attrs():
+    """{class name: names X mentioned as self.X in the reference tree}"""
+    global _REF_ATTRS
+    if _REF_ATTRS is None:
+        from .. import canon
+        out = {}
+        for key, (h, src) in canon.load_fn_table().items():
+            rel, cls, fn, k = key.split('::')
+            if not cls:
+                continue
+            names = out.setdefault(cls, set())
+            for x in ast.walk(ast.parse(src)):
+                if isinstance(x, ast.Attribute) and isinstance(
+                        x.value, ast.Name) and x.value.id == 'self':
+                    names.add(x.attr)
+        _REF_ATTRS = out
+    return _REF_ATTRS
+
+
+def anchor_classes(ctx, exclude=()):
+    """classes defined in the files the property is anchored in"""
+    import fnmatch
+    import json
+    import os
+    from ..core import VERIF
+    pats = []
+    for line in open(os.path.join(VERIF, 'properties.jsonl')):
+        pr = json.loads(line)
+        if pr['id'] == ctx.prop:
+            pats = pr['anchors']['files']
+    out = []
+    for cn, c in sorted(ctx.P.classes.items()):
+        if cn in exclude:
+            continue
+        if any(fnmatch.fnmatch(c.module, pt) for pt in pats):
+            out.append(cn)
     return out
 
 
@@ -45,6 +122,15 @@ def _derived_attrs(P, cn):
                         and isinstance(x.value, ast.Name) and \
                         x.value.id == 'self':
                     out.setdefault(x.attr, m)
+                if isinstance(x, ast.Call) and unparse(x.func) == 'setattr' \
+                        and len(x.args) == 3 and isinstance(
+                            x.args[0], ast.Name) and x.args[0].id == 'self' \
+                        and isinstance(x.args[1], ast.Constant):
+                    out.setdefault(str(x.args[1].value), m)
+                if isinstance(x, ast.Subscript) and isinstance(x.ctx, ast.Store) \
+                        and unparse(x.value) in ('self.__dict__', 'vars(self)') \
+                        and isinstance(x.slice, ast.Constant):
+                    out.setdefault(str(x.slice.value), m)
                 # containers filled through self: self.X[k] = v,
                 # self.X.append(v), self.X.setdefault(...), self.X.update(...)
                 if isinstance(x, ast.Subscript) and isinstance(x.ctx, ast.Store) \
@@ -62,7 +148,7 @@ def _derived_attrs(P, cn):
     return out
 
 
-def stale_cache(ctx, rule, classes, why, min_methods=10):
+def stale_cache(ctx, rule, classes, why, min_methods=10, new_state=None):
     """NO-STALE-STATE: in the stateless query helpers every read of an
     attribute that some method derives from the lens is preceded, on every
     path of the same public call, by a store of that attribute.  A memo read
@@ -71,12 +157,34 @@ def stale_cache(ctx, rule, classes, why, min_methods=10):
     P = ctx.P
     res = Result(rule, 'query helpers keep no lens-derived state across '
                  'calls: every derived attribute read in a public call has '
-                 'been stored earlier in that same call, on every path')
+                 'been stored earlier in that same call, on every path; in '
+                 'the other classes of the anchor files the same holds for '
+                 'every attribute the reference tree does not have (state '
+                 'that somebody added)')
     n = 0
-    for cn in classes:
+    if new_state is None:
+        new_state = anchor_classes(ctx, exclude=classes)
+    refattrs = _ref_class_attrs()
+    for cn in list(classes) + [c_ for c_ in new_state if c_ not in classes]:
         if cn not in P.classes:
             raise AnalysisError(f'{rule}: class {cn} not found')
         derived = _derived_attrs(P, cn)
+        if cn not in classes:
+            # a state-holding class: only attributes that no class of its
+            # hierarchy has in the reference tree
+            if cn not in refattrs:
+                continue
+            known = set()
+            for k in P.mro(cn):
+                known |= refattrs.get(k, set())
+            for k, sub in refattrs.items():
+                if k in P.classes and cn in P.mro(k):
+                    known |= sub
+            derived = {a: m for a, m in derived.items() if a not in known}
+            if not derived:
+                res.ok(f'{cn}: no stored attribute beyond those of the '
+                       f'reference tree')
+                continue
         c = P.classes[cn]
         for m in c.methods.values():
             if m.name.startswith('_'):
@@ -125,6 +233,11 @@ def stale_cache(ctx, rule, classes, why, min_methods=10):
                             break
                     if bad:
                         break
+                    if e.kind == 'call' and unparse(e.node.func) == 'setattr' \
+                            and len(e.node.args) == 3 and \
+                            unparse(e.node.args[0]) == 'self' and \
+                            isinstance(e.node.args[1], ast.Constant):
+                        stored.add(str(e.node.args[1].value))
                     if e.kind in ('store', 'aug'):
                         t = e.node
                         while isinstance(t, ast.Subscript):
@@ -184,10 +297,101 @@ def stale_cache(ctx, rule, classes, why, min_methods=10):
                             f'of inputs {why}',
                             construct=f'{m.qual}: class-level state '
                                       f'{tgt.attr}'))
+    _memo_sites(ctx, res, rule, why)
     res.min_instances = min_methods
     if n < min_methods:
         raise AnalysisError(f'{rule}: only {n} public methods analysed')
     return res
+
+
+_IO_CALLS = ('open', 'np.load', 'np.loadtxt', 'np.genfromtxt', 'json.load',
+             'yaml.safe_load', 'yaml.load', 'pd.read_csv', 'read_csv')
+
+
+def _memo_sites(ctx, res, rule, why):
+    """memoising decorators and module-level containers in the anchor files:
+    a memo keyed by object identity or by a path outlives an edit of the
+    object / the file; a memo of a function of plain numbers is harmless"""
+    import fnmatch
+    import json
+    import os
+    from ..core import VERIF
+    P = ctx.P
+    pats = []
+    for line in open(os.path.join(VERIF, 'properties.jsonl')):
+        pr = json.loads(line)
+        if pr['id'] == ctx.prop:
+            pats = pr['anchors']['files']
+    nfun = 0
+    for rel, tree in P.modules.items():
+        if not any(fnmatch.fnmatch(rel, pt) for pt in pats):
+            continue
+        glob = {}
+        for n in tree.body:
+            if isinstance(n, (ast.Assign, ast.AnnAssign)):
+                t = n.targets[0] if isinstance(n, ast.Assign) else n.target
+                if isinstance(t, ast.Name) and isinstance(
+                        n.value, (ast.Dict, ast.List, ast.Set, ast.Call)):
+                    glob[t.id] = n
+        funcs = []
+        for n in tree.body:
+            if isinstance(n, ast.FunctionDef):
+                funcs.append((None, n))
+            elif isinstance(n, ast.ClassDef):
+                funcs += [(n.name, m) for m in n.body
+                          if isinstance(m, ast.FunctionDef)]
+        for cn, fn in funcs:
+            nfun += 1
+            q = f'{cn}.{fn.name}' if cn else fn.name
+            for d in fn.decorator_list:
+                txt = unparse(d.func if isinstance(d, ast.Call) else d)
+                if txt.split('.')[-1] not in ('lru_cache', 'cache',
+                                              'cached_property', 'memoize'):
+                    continue
+                params = [a.arg for a in fn.args.args]
+                objarg = [x for x in ast.walk(fn) if isinstance(
+                    x, ast.Attribute) and isinstance(x.value, ast.Name) and
+                    x.value.id in params]
+                io = [c for c in ast.walk(fn) if isinstance(c, ast.Call) and
+                      unparse(c.func) in _IO_CALLS]
+                if (params and params[0] in ('self', 'cls')) or objarg or io:
+                    what = ('the object it is called on' if params[:1] in (
+                        ['self'], ['cls']) else
+                        'a file' if io else 'an object passed in')
+                    res.fail(ctx.finding(
+                        rule, q, fn,
+                        f'{q} is memoised ({txt}) although its result '
+                        f'depends on {what}, which can change between two '
+                        f'calls with the same arguments: {why}',
+                        construct=f'{q}: memoised by {txt.split(".")[-1]}'))
+            for x in ast.walk(fn):
+                tgt = None
+                if isinstance(x, ast.Global):
+                    for nm in x.names:
+                        res.fail(ctx.finding(
+                            rule, q, x,
+                            f'{q} rebinds the module-level name {nm}: state '
+                            f'shared by every call; {why}',
+                            construct=f'{q}: global {nm}'))
+                if isinstance(x, ast.Subscript) and isinstance(x.ctx, ast.Store):
+                    tgt = x.value
+                elif isinstance(x, ast.Call) and isinstance(
+                        x.func, ast.Attribute) and x.func.attr in (
+                        'append', 'setdefault', 'update', 'add', 'extend',
+                        'insert'):
+                    tgt = x.func.value
+                if isinstance(tgt, ast.Name) and tgt.id in glob and not any(
+                        isinstance(y, (ast.Name, ast.arg)) and
+                        getattr(y, 'id', getattr(y, 'arg', None)) == tgt.id and
+                        (isinstance(y, ast.arg) or isinstance(y.ctx, ast.Store))
+                        and y is not tgt for y in ast.walk(fn)):
+                    res.fail(ctx.finding(
+                        rule, q, x,
+                        f'{q} stores into the module-level container '
+                        f'{tgt.id}: state shared by every call; {why}',
+                        construct=f'{q}: module-level state {tgt.id}'))
+    res.ok(f'{nfun} functions of the anchor files: no memoising decorator on '
+           f'a function of objects or files, no module-level state')
 
 
 # --------------------------------------------------------------------------
